@@ -493,9 +493,80 @@ def rule_p6(repo):
     return res
 
 
+OP_MEANING = {'+': 'plus', '-': 'minus', '*': 'times', '==': 'iff', '!=': ('not', 'iff'), '<=': 'less_eq', '<': 'less', '>=': 'greater_eq', '>': 'greater',
+              '&': 'and', '|': 'or', '-->': 'imp', '<-->': 'iff'}
+
+
+def rule_p7(repo):
+    """Verification conditions reach the prover through Op.convert_hol only.  For a binary operator the HOL
+    term must be the operator of that name over both converted operands, in that order: each case `self.op == "X"`
+    returns an expression whose table (over small integers / truth values of the two operands) is the table of X, and
+    no answer is given before the operator was looked at (dropping a "neutral" 0 turns 0 - e into e)."""
+    from ..truthtable import value
+    import itertools
+    res = RuleResult('C20.P7', 'the HOL form of a binary operator is that operator over both converted operands', floor=10)
+    f = repo.func(EXPR, 'Op.convert_hol')
+    cfg = cfg_of(f.node)
+    # the binary branch: `e1, e2 = self.args[0].convert_hol(..), self.args[1].convert_hol(..)`
+    bind = [n for n in cfg.stmt_nodes(ast.Assign) if isinstance(n.ast.targets[0], (ast.Tuple, ast.List)) and len(n.ast.targets[0].elts) == 2 and
+            'convert_hol' in src(n.ast.value, 200)]
+    need(bind, 'Op.convert_hol: conversion of the two operands not found')
+    a, b = [t.id for t in bind[0].ast.targets[0].elts]
+
+    def ev(e):
+        if isinstance(e, ast.Name) and e.id in (a, b):
+            return ('atom', e.id)
+        if isinstance(e, ast.BinOp) and isinstance(e.op, (ast.Add, ast.Sub, ast.Mult)):
+            return ({ast.Add: 'plus', ast.Sub: 'minus', ast.Mult: 'times'}[type(e.op)], ev(e.left), ev(e.right))
+        if isinstance(e, ast.Compare) and len(e.ops) == 1 and isinstance(e.ops[0], (ast.Lt, ast.LtE, ast.Gt, ast.GtE)):
+            return ({ast.Lt: 'less', ast.LtE: 'less_eq', ast.Gt: 'greater', ast.GtE: 'greater_eq'}[type(e.ops[0])], ev(e.left), ev(e.comparators[0]))
+        if isinstance(e, ast.Call):
+            nm = call_name(e).split('.')[-1]
+            if nm == 'Not' and len(e.args) == 1:
+                return ('not', ev(e.args[0]))
+            if nm in ('Eq', 'And', 'Or', 'Implies') and len(e.args) == 2:
+                return ({'Eq': 'iff', 'And': 'and', 'Or': 'or', 'Implies': 'imp'}[nm], ev(e.args[0]), ev(e.args[1]))
+        raise ValueError(src(e, 40))
+    after = cfg.reach_from([bn for bn, _l in bind[0].succ])
+    rets = [r for r in cfg.return_nodes() if r.id in after]
+    need(len(rets) >= 10, 'Op.convert_hol: the cases of the binary operators were not found')
+    for r in rets:
+        # the operator this return answers for: the `self.op == "X"` test whose true edge dominates it
+        ops = []
+        for t in cfg.test_nodes():
+            cp = compare_parts(t.ast)
+            if cp and cp[0] is ast.Eq and path_of(cp[1]) == 'self.op' and isinstance(cp[2], ast.Constant) and t.id in after:
+                if cfg.path_avoiding(r, skip_edges=[(t.id, 'true')], start=bind[0]) is None:
+                    ops.append(cp[2].value)
+        key = '%s :: Op.convert_hol :: case(%s)' % (EXPR, ops[0] if ops else 'line-%s' % src(r.ast.value, 20))
+        if not ops:
+            res.add(key, False, 'line %d answers `%s` before the operator was looked at: for some operator this is not its meaning '
+                    '(0 - e became e: the condition proved is not the one displayed)' % (r.lineno, src(r.ast.value, 30)), '%s:%d' % (EXPR, r.lineno))
+            continue
+        op = ops[0]
+        need(op in OP_MEANING, 'Op.convert_hol: operator %r has no entry in the table of meanings' % op)
+        try:
+            got = ev(r.ast.value)
+        except ValueError as ex:
+            res.add(key, False, 'line %d: `%s` is not an expression over the two converted operands' % (r.lineno, ex), '%s:%d' % (EXPR, r.lineno))
+            continue
+        want = OP_MEANING[op]
+        want = ('not', ('iff', ('atom', a), ('atom', b))) if isinstance(want, tuple) else (want, ('atom', a), ('atom', b))
+        dom = (False, True) if op in ('&', '|', '-->', '<-->') else (-1, 0, 1, 2)
+        diff = None
+        for x, y in itertools.product(dom, dom):
+            sg = {a: x, b: y}
+            if value(got, sg) != value(want, sg):
+                diff = sg
+                break
+        res.add(key, diff is None, 'same table as %s' % op if diff is None else
+                'line %d: `%s` differs from `%s %s %s` at %s' % (r.lineno, src(r.ast.value, 30), a, op, b, diff), '%s:%d' % (EXPR, r.lineno))
+    return res
+
+
 def rules(repo):
     p1 = rule_p1(repo)
     if any(not i.ok for i in p1.instances):
         # with an ambiguous grammar there is no nesting for the printer's brackets to agree with
-        return [p1, rule_p3(repo), rule_p4(repo), rule_p5(repo), rule_p6(repo)]
-    return [p1, rule_p2(repo), rule_p3(repo), rule_p4(repo), rule_p5(repo), rule_p6(repo)]
+        return [p1, rule_p3(repo), rule_p4(repo), rule_p5(repo), rule_p6(repo), rule_p7(repo)]
+    return [p1, rule_p2(repo), rule_p3(repo), rule_p4(repo), rule_p5(repo), rule_p6(repo), rule_p7(repo)]
